@@ -181,6 +181,23 @@ fn composed_clip(levels: &[Level]) -> Option<Option<R4>> {
     acc
 }
 
+/// A stream whose `size_hint` is as uninformative as the trait allows (what `flat_map`, `filter`,
+/// `from_fn`, `scan` report): mode 0 passes the inner hint on, 1 keeps only the upper bound, 2 reports (0, None).
+struct Hint<I>(I, u8);
+impl<I: Iterator> Iterator for Hint<I> {
+    type Item = I::Item;
+    fn next(&mut self) -> Option<I::Item> {
+        self.0.next()
+    }
+    fn size_hint(&self) -> (usize, Option<usize>) {
+        match self.1 {
+            0 => self.0.size_hint(),
+            1 => (0, self.0.size_hint().1),
+            _ => (0, None),
+        }
+    }
+}
+
 struct ApplyOp<'o, C> {
     op: &'o Op,
     result: Option<Result<(), Fault>>,
@@ -191,8 +208,9 @@ impl<'o, C: Col> TargetUser<C, Fault> for ApplyOp<'o, C> {
     fn use_target<T: DrawTarget<Color = C, Error = Fault>>(&mut self, t: &mut T) {
         self.bbox = Some(t.bounding_box());
         self.result = Some(match self.op {
-            Op::DrawIter(p) => t.draw_iter(p.iter().map(|&(x, y, c)| Pixel(Point::new(x, y), C::from_u32(c)))),
-            Op::FillContiguous(a, cols) => t.fill_contiguous(a, cols.iter().map(|&c| C::from_u32(c))),
+            // (the size hints of the streams vary with the operation: exact, upper bound only, none)
+            Op::DrawIter(p) => t.draw_iter(Hint(p.iter().map(|&(x, y, c)| Pixel(Point::new(x, y), C::from_u32(c))), (p.len() % 3) as u8)),
+            Op::FillContiguous(a, cols) => t.fill_contiguous(a, Hint(cols.iter().map(|&c| C::from_u32(c)), ((cols.len() + a.size.width as usize) % 3) as u8)),
             Op::FillSolid(a, c) => t.fill_solid(a, C::from_u32(*c)),
             Op::Clear(c) => t.clear(C::from_u32(*c)),
         });
@@ -521,7 +539,7 @@ where
 fn main() {
     main_with("c03", "exploration", |run: &Run| {
         run.set_rule(
-            "Histories of 1..=12 operations (draw_iter with unordered/duplicate/outside points, fill_contiguous with streams of length 0, half, one short, exact and too long, fill_solid, clear; areas partly outside, zero-sized, disjoint, enclosing) issued through every nesting of translated/cropped/clipped up to depth 3 (all 40 shapes enumerated, parameters random) \
+            "Histories of 1..=12 operations (draw_iter with unordered/duplicate/outside points, fill_contiguous with streams of length 0, half, one short, exact and too long and with exact, upper-bound-only and absent size hints, fill_solid, clear; areas partly outside, zero-sized, disjoint, enclosing) issued through every nesting of translated/cropped/clipped up to depth 3 (all 40 shapes enumerated, parameters random) \
              optionally with color_converted innermost or outermost, over parents with arbitrary (non-origin, possibly empty) boxes, with native and with default fill methods; every written colour is unique. After each operation: parent map = model map, no delivered point outside the composed clip, exact row-major pixel sequence on default-fill parents, documented bounding box at every level, injected parent errors returned unchanged. \
              Stacks with a cropped level whose effective area is empty have no documented shift: only totality and box emptiness are judged. Non-trivial = non-empty stack and the parent ended with at least one pixel; distinct = distinct (setup, operation trace).",
         );
